@@ -1,0 +1,16 @@
+//go:build verif
+// +build verif
+
+package singleflight
+
+// VerifSnapshot returns, for every key with a registered call, how many callers have joined it
+// (verification harness only, build tag verif).
+func (g *Group) VerifSnapshot() map[string]int {
+	g.mu.Lock()
+	defer g.mu.Unlock()
+	out := make(map[string]int, len(g.m))
+	for k, c := range g.m {
+		out[k] = c.dups
+	}
+	return out
+}
